@@ -183,7 +183,7 @@ def fam_missing_required(rng):
     return "\n".join([HEADER, *body]) + "\n"
 
 
-def fam_protocol(rng):
+def fam_protocol(rng, many_missing=True):
     n = rng.randrange(3, 7)
     ms = _names(rng, n)
     body = ["class P(Protocol):"]
@@ -192,17 +192,65 @@ def fam_protocol(rng):
             body.append(f"    {m}: int")
         else:
             body.append(f"    def {m}(self) -> int: ...")
-    have = rng.sample(ms, rng.randrange(0, max(1, n - 1)))
+    # many_missing: the implementation lacks >= 2 members (which one is named in the detail depends on the order);
+    # otherwise exactly one member is wrong, so only the member listing of the headline can vary
+    if many_missing:
+        have = rng.sample(ms, rng.randrange(0, n - 1))
+    else:
+        have = ms[:-1] if rng.random() < 0.5 else ms[1:]
     body.append("class Impl:")
     body.append("    zzz = 1")
     for m in have:
         body.append(f"    def {m}(self) -> int: return 0")
-    body += ["class Wrong:", *[f"    def {m}(self) -> str: return ''" for m in ms],
-             "def want(p: P) -> None: ...", "def f(i: Impl, w: Wrong):", "    want(i)", "    want(w)", "    want(1)",
-             "    x: P = i", "    reveal_type(x)"]
-    if rng.random() < 0.5:
-        body += ["    want(Impl())", "    y: List[P] = [i, w]"]
+    body += ["def want(p: P) -> None: ...", "def f(i: Impl):", "    want(i)", "    x: P = i", "    reveal_type(x)"]
+    if many_missing and rng.random() < 0.5:
+        body += ["    want(1)", "    want(Impl())", "    y: List[P] = [i, i]"]
     return "\n".join([HEADER, *body]) + "\n"
+
+
+def fam_protocol_one(rng):
+    return fam_protocol(rng, many_missing=False)
+
+
+def fam_bad_context_manager(rng):
+    lit = rng.choice(["3", "'s'", "1.5", "None", "b'q'"])
+    body = ["class Half:", "    def __enter__(self): return self", "def f(i: int, o: object, h: Half):", f"    with {lit}: pass"]
+    if rng.random() < 0.6:
+        body += ["    with i: pass", "    with o as v: reveal_type(v)"]
+    if rng.random() < 0.5:
+        body += ["async def af(i: int):", f"    async with {lit}: pass", "    async with i: pass"]
+    body += ["def g(i: int):", "    for e in i: pass", "    a, b = i", "    i[0]", "    i()"]
+    return "\n".join([HEADER, *body]) + "\n"
+
+
+BUILTIN_BAD = ["int(1, {kw})", "len([], {kw})", "float('1', {kw})", "str(1, {kw})", "bytes(3, {kw})", "abs(1, {kw})", "sum([1], {kw})",
+               "sorted([1], {kw})", "bytearray(3, {kw})", "complex(1, {kw})", "round(1.5, {kw})", "divmod(1, 2, {kw})"]
+
+
+def fam_builtin_bad_call(rng):
+    """Messages that print typeshed signatures (whose parameter annotations are shared, cached Value objects)."""
+    body = ["def f():"]
+    for call in rng.sample(BUILTIN_BAD, rng.randrange(2, 5)):
+        kws = _names(rng, rng.randrange(1, 3))
+        body.append("    " + call.format(kw=", ".join(f"{k}=1" for k in kws)))
+    body += ["    int()()", "    reveal_type(int)", "    reveal_type(len)", "    reveal_type(sorted)"]
+    return "\n".join([HEADER, *body]) + "\n"
+
+
+WARMUP = HEADER + """import collections
+import os
+import re
+
+def warm(s: str, b: bytes, i: int, f: float, l: List[int], d: Dict[str, int], o: object, t: Tuple[int, ...], ba: bytearray):
+    int(s); int(b); int(f); int(i); int(s, 10); int(ba); float(s); float(i); str(o); str(b, 'utf-8'); bytes(i); bytes(b); bytes(l)
+    len(l); len(s); len(d); sorted(l); sorted(l, key=str); abs(i); abs(f); sum(l); sum(l, 2); min(l); max(l); print(s, i)
+    dict(d); list(t); tuple(l); set(l); frozenset(l); isinstance(o, int); bool(o); complex(f); complex(s); bytearray(b); bytearray(i)
+    round(f); round(f, 2); divmod(i, i); pow(i, i); hash(o); iter(l); next(iter(l)); enumerate(l); zip(l, l); range(i); reversed(l)
+    os.path.join(s, s); re.compile(s); s.join([s]); s.format(i); b.decode(); l.append(i); d.get(s); d.items(); repr(o); id(o)
+    with open(s) as fh:
+        fh.read()
+    collections.OrderedDict(d); collections.Counter(l); memoryview(b); slice(i); type(o); callable(o); getattr(o, s); chr(i); ord(s)
+"""
 
 
 def fam_format_keys(rng):
@@ -358,7 +406,7 @@ def fam_runtime_repr(rng):
 FAMILIES = [
     ("or-isinstance", fam_or_isinstance, 4), ("or-literal", fam_or_literal, 3), ("and-or-mixed", fam_and_or_mixed, 2),
     ("try-assign", fam_try_assign, 4), ("unused-vars", fam_unused, 4), ("unexpected-kwargs", fam_unexpected_kwargs, 3),
-    ("missing-required", fam_missing_required, 1), ("protocol-members", fam_protocol, 3), ("format-keys", fam_format_keys, 3),
+    ("missing-required", fam_missing_required, 1), ("protocol-members", fam_protocol, 2), ("protocol-one-wrong", fam_protocol_one, 2), ("bad-context-manager", fam_bad_context_manager, 2), ("builtin-bad-call", fam_builtin_bad_call, 2), ("format-keys", fam_format_keys, 3),
     ("literal-union", fam_literal_union, 3), ("typeddict", fam_typeddict, 3), ("overload", fam_overload, 2),
     ("typevar", fam_typevar, 2), ("attrs", fam_attrs, 2), ("match", fam_match, 1), ("possibly-undefined", fam_possibly_undefined, 2),
     ("displays", fam_dict_set_display, 2), ("class-checks", fam_class_checks, 1), ("cond-value", fam_cond_value, 2), ("runtime-repr", fam_runtime_repr, 1),
